@@ -1,5 +1,7 @@
 (** * C16 — built-in agents emit only valid instructions and never abort a simulation *)
-From Bourse Require Import Model.Types Model.Side Model.Book Model.Rng Model.Float Model.Env Model.Agents Proofs.AgentProps Proofs.AgentDir Proofs.AgentOrders.
+From Bourse Require Import Model.Types Model.Side Model.Book Model.Rng Model.Float Model.Env Model.Agents Proofs.AgentProps Proofs.AgentDir Proofs.AgentOrders Proofs.FloatSym Proofs.FloatQuote Proofs.FloatQuote2.
+From Coq Require Import Reals.
+From Flocq Require Import Core.Core IEEE754.BinarySingleNaN.
 
 (** An action with probability 0 never happens, one with probability 1 always
     does: the uniform [f32] draw is [k * 2^-24] with [k < 2^24]; it is never
@@ -55,6 +57,99 @@ Theorem c16_cancels_own_active_orders : forall e c a orders pc e1 c1 keep,
     (forall id, In id keep \/ In id drop -> In id orders /\ order_status e a id = Ok SActive).
 Proof. exact cancel_live_orders_spec. Qed.
 
+(** Buys at or below, sells at or above the observed mid-price - as real numbers, through every
+    binary64 rounding on the way ([mid -/+ |d|], [/ tick], [floor]/[ceil], [* tick], clamp, cast,
+    snap): for every finite non-negative mid-price whose quotient by the tick size is representable
+    (true whenever both sides are quoted: the quotient is then a half-integer) and every draw [d]
+    (any binary64 value for buys; any but NaN for sells). *)
+Theorem c16_buy_quote_at_or_below_mid : forall (mid d : f64) (tick p : N),
+  is_finite mid = true -> Bsign mid = false -> (1 <= tick < 4294967296)%N ->
+  round radix2 (SpecFloat.fexp 53 1024) ZnearestE (B2R mid / IZR (Z.of_N tick)) = (B2R mid / IZR (Z.of_N tick))%R ->
+  snap_to_grid (round_price false (fsub mid (fabs d)) (f_of_N tick)) tick = Ok p ->
+  (IZR (Z.of_N p) <= B2R mid)%R.
+Proof. exact buy_quote_le_mid. Qed.
+
+Theorem c16_sell_quote_at_or_above_mid : forall (mid d : f64) (tick p : N),
+  is_finite mid = true -> (0 <= B2R mid)%R -> is_nan d = false -> (1 <= tick < 4294967296)%N ->
+  (B2R mid <= IZR (Z.of_N (4294967295 - 4294967295 mod tick)))%R ->
+  round radix2 (SpecFloat.fexp 53 1024) ZnearestE (B2R mid / IZR (Z.of_N tick)) = (B2R mid / IZR (Z.of_N tick))%R ->
+  snap_to_grid (round_price true (fadd mid (fabs d)) (f_of_N tick)) tick = Ok p ->
+  (B2R mid <= IZR (Z.of_N p))%R.
+Proof. exact sell_quote_ge_mid. Qed.
+
+(** Without the representability hypothesis, for tick sizes up to 2^18 and any observed mid-price
+    [x2 / 2] (one-sided and empty books included, where the sentinel touch price puts the mid-price
+    off the half-tick grid): rounding the quotient moves it by less than 2^-19, while it stays at
+    least [1 / (2 tick)] away from every integer it is not equal to. *)
+Theorem c16_buy_quote_at_or_below_mid_any_book : forall (mid d : f64) (tick p : N) (x2 : Z),
+  is_finite mid = true -> Bsign mid = false -> (1 <= tick <= 262144)%N ->
+  B2R mid = (IZR x2 / 2)%R -> (0 <= x2 < 2 ^ 34)%Z ->
+  snap_to_grid (round_price false (fsub mid (fabs d)) (f_of_N tick)) tick = Ok p ->
+  (IZR (Z.of_N p) <= B2R mid)%R.
+Proof. exact buy_quote_le_mid_any. Qed.
+
+Theorem c16_sell_quote_at_or_above_mid_any_book : forall (mid d : f64) (tick p : N) (x2 : Z),
+  is_finite mid = true -> is_nan d = false -> (1 <= tick <= 262144)%N ->
+  B2R mid = (IZR x2 / 2)%R -> (0 <= x2 < 2 ^ 34)%Z ->
+  (B2R mid <= IZR (Z.of_N (4294967295 - 4294967295 mod tick)))%R ->
+  snap_to_grid (round_price true (fadd mid (fabs d)) (f_of_N tick)) tick = Ok p ->
+  (B2R mid <= IZR (Z.of_N p))%R.
+Proof. exact sell_quote_ge_mid_any. Qed.
+
+(** The same in the integers the book uses: a limit order placed by [place_buy_limit_order] /
+    [place_sell_limit_order] around the mid-price [x2 / 2] of a book quoted on both sides
+    ([x2 = bid + ask = k * tick]) is on the grid, has the configured volume and trader id, and
+    [2 * price <= bid + ask] for a buy, [bid + ask <= 2 * price] for a sell. Assumed of the
+    log-normal oracle: it returns no NaN. *)
+Theorem c16_limit_quote_on_its_side : forall (ln : N -> option (N * N)),
+  (forall pos bits used, ln pos = Some (bits, used) -> is_nan (f_of_bits bits) = false) ->
+  forall e c a (buy : bool) x2 tick v tr e' c' id,
+  place_limit_dist ln e c a buy (h x2) tick v tr = Ok (e', c', id) ->
+  (1 <= tick < 4294967296)%N -> grid_or_small x2 tick ->
+  (x2 <= 2 * (4294967295 - 4294967295 mod tick))%N ->
+  adds_only (fun o => helper_order tick v tr o /\ o_side o = (if buy then Bid else Ask) /\
+                      if buy then (2 * o_price o <= x2)%N else (x2 <= 2 * o_price o)%N) a e e'.
+Proof. exact limit_quote_on_its_side. Qed.
+
+(** A whole update of a noise agent / a momentum agent (on any book when the tick size is at most
+    2^18; on a book quoted on both sides at multiples of the tick size otherwise): every order it adds is a market order or a limit order on its side of
+    the mid-price the agent observed ([bid + ask] of the book it looked at). *)
+Theorem c16_noise_agent_quotes : forall (lognormal : N -> N -> option (N * N)) (tanh64 : N -> N),
+  (forall k pos bits used, lognormal k pos = Some (bits, used) -> is_nan (f_of_bits bits) = false) ->
+  forall k e c a orders first n p e' c' ag' b,
+  agent_update lognormal tanh64 k e c (ANoise a orders first n p) = Ok (e', c', ag') ->
+  nth_error (en_market e) a = Some b ->
+  (1 <= np_tick p < 4294967296)%N -> grid_or_small (mid_price_x2 b) (np_tick p) ->
+  (mid_price_x2 b <= 2 * (4294967295 - 4294967295 mod np_tick p))%N ->
+  adds_only (quote_ok (mid_price_x2 b)) a e e'.
+Proof. exact noise_update_quotes. Qed.
+
+Theorem c16_momentum_agent_quotes : forall (lognormal : N -> N -> option (N * N)) (tanh64 : N -> N),
+  (forall k pos bits used, lognormal k pos = Some (bits, used) -> is_nan (f_of_bits bits) = false) ->
+  forall k e c a orders first n p last mom e' c' ag' b,
+  agent_update lognormal tanh64 k e c (AMomentum a orders first n p last mom) = Ok (e', c', ag') ->
+  nth_error (en_market e) a = Some b ->
+  (1 <= mp_tick p < 4294967296)%N -> grid_or_small (mid_price_x2 b) (mp_tick p) ->
+  (mid_price_x2 b <= 2 * (4294967295 - 4294967295 mod mp_tick p))%N ->
+  adds_only (quote_ok (mid_price_x2 b)) a e e'.
+Proof. exact momentum_update_quotes. Qed.
+
+(** Non-vacuity: mid-price 100.5 (bid 100, ask 101), tick 1, draw 0.7: the buy is quoted at 99
+    (floor of 99.8), the sell at 102 (ceil of 101.2); with tick 5 and mid 102.5: 100 and 105. *)
+Example c16_quotes_nonvacuous :
+  snap_to_grid (round_price false (fsub (h 201) (fabs (f_of_bits 4604480259023595110))) (f_of_N 1)) 1 = Ok 99 /\
+  snap_to_grid (round_price true (fadd (h 201) (fabs (f_of_bits 4604480259023595110))) (f_of_N 1)) 1 = Ok 102 /\
+  snap_to_grid (round_price false (fsub (h 205) (fabs (f_of_bits 4604480259023595110))) (f_of_N 5)) 5 = Ok 100 /\
+  snap_to_grid (round_price true (fadd (h 205) (fabs (f_of_bits 4604480259023595110))) (f_of_N 5)) 5 = Ok 105.
+Proof. vm_compute. auto. Qed.
+
+(** ... and on a one-sided book (best bid 700, no asks: the mid-price is (700 + 2^32-1)/2, off the
+    half-tick grid of tick 7): the buy lands on the largest grid price not above mid - 0.7. *)
+Example c16_quotes_one_sided_book :
+  snap_to_grid (round_price false (fsub (h 4294967995) (fabs (f_of_bits 4604480259023595110))) (f_of_N 7)) 7 = Ok 2147483996 /\
+  (2 * 2147483996 <= 4294967995)%N /\ (4294967995 < 2 * (2147483996 + 7))%N.
+Proof. vm_compute. repeat split; try reflexivity; intro H; discriminate H. Qed.
+
 Check c16_probability_one_always.
 Check c16_noise_agent_orders.
 
@@ -74,3 +169,10 @@ Print Assumptions c16_noise_agent_orders.
 Print Assumptions c16_momentum_agent_orders.
 Print Assumptions c16_random_agent_orders.
 Print Assumptions c16_cancels_own_active_orders.
+Print Assumptions c16_buy_quote_at_or_below_mid.
+Print Assumptions c16_sell_quote_at_or_above_mid.
+Print Assumptions c16_buy_quote_at_or_below_mid_any_book.
+Print Assumptions c16_sell_quote_at_or_above_mid_any_book.
+Print Assumptions c16_limit_quote_on_its_side.
+Print Assumptions c16_noise_agent_quotes.
+Print Assumptions c16_momentum_agent_quotes.
